@@ -524,7 +524,9 @@ def eq_variants(x: Dict[str, Any], rng, keys: List[str], mutate: Callable[[Dict[
     yield Case({"op": op, "a": x, "b": dict(x)}, "valid", tag="eq-same")
     for key in keys:
         y = mutate(dict(x), key)
-        if y is not None:
+        if isinstance(y, tuple):
+            yield Case({"op": op, "a": y[1], "b": y[2]}, "valid", tag="eq-" + key)
+        elif y is not None:
             yield Case({"op": op, "a": x, "b": y}, "valid", tag="eq-" + key)
 
 
@@ -954,9 +956,20 @@ class C06Var(Prop):
                     r = dict(y["responses"][-1])
                     r["msg"] = r["msg"] + "00" if len(r["msg"]) < 20 else r["msg"][:-2]
                     y["responses"] = y["responses"][:-1] + [r]
+                elif key in ("responses-msg-same-len", "responses-name-same-len"):
+                    if not y["responses"]:
+                        return None
+                    r = dict(y["responses"][-1])
+                    fld = "msg" if key.startswith("responses-msg") else "first"
+                    n = len(r[fld]) // 2
+                    if n == 0:
+                        return None
+                    r[fld] = hx(b"q" * n) if r[fld] != hx(b"q" * n) else hx(b"r" * n)
+                    y["responses"] = y["responses"][:-1] + [r]
                 return y
             yield from eq_variants(x, rng, ["cond", "delivery", "status", "fault", "fault-value", "responses-len",
-                                            "responses-order", "responses-msg", "crc", "large", "src_v", "dst_v", "seq_v",
+                                            "responses-order", "responses-msg", "responses-msg-same-len",
+                                            "responses-name-same-len", "crc", "large", "src_v", "dst_v", "seq_v",
                                             "dir"], mut, "fin_eq")
 
     # ---- Metadata ----
@@ -1139,6 +1152,21 @@ class C06Var(Prop):
                     y["size"] ^= 1 << rng.randint(0, 31)
                 elif key in ("src", "dst"):
                     y[key] = y[key] + "7a" if len(y[key]) < 400 else "7a"
+                elif key in ("src-same-len", "dst-same-len"):
+                    # same length: the header comparison (packet_len) cannot mask a difference of the names
+                    kk = key[:3]
+                    n = len(y[kk]) // 2
+                    if n == 0:
+                        return None
+                    y[kk] = hx(b"x" * n) if y[kk] != hx(b"x" * n) else hx(b"y" * n)
+                elif key == "options-same-len":
+                    o = y["options"] or []
+                    if not o:
+                        return None
+                    v = rbytes(rng, 3)
+                    y["options"] = [{"kind": "generic", "type": 5, "value": hx(v)}] + o[1:]
+                    x2 = dict(x, options=[{"kind": "flow_label", "value": hx(bytes([v[0], v[1], v[2] ^ 0x40]))}] + o[1:])
+                    return ("pair", x2, y)
                 elif key == "options-none-empty":
                     if y["options"] not in (None, []):
                         return None
@@ -1159,7 +1187,8 @@ class C06Var(Prop):
                     y["src"], y["dst"] = None, None
                     return None if (x["src"] or x["dst"]) else y
                 return y
-            yield from eq_variants(x, rng, ["closure", "ctype", "size", "src", "dst", "options-none-empty", "options-len",
+            yield from eq_variants(x, rng, ["closure", "ctype", "size", "src", "dst", "src-same-len", "dst-same-len",
+                                            "options-same-len", "options-none-empty", "options-len",
                                             "options-order", "options-value", "name-none-empty", "crc", "large", "src_v", "dst_v",
                                             "seq_v", "mode"], mut, "md_eq")
         a = rand_conf(rng)
